@@ -195,9 +195,34 @@ def gen_case(rng, i, tier):
         r = [rng.choice([1.0, round(rng.uniform(0.1, 0.95), 2)]) for _ in range(m)]
     survival = rng.random() < 0.5
     times_json = "param" if (scenario == "relative" or rng.random() < 0.7) else "list"
+    # --- a tip NEAR a rho-sampling event without being on it (1e-7 .. 1e-5 relative): it is a psi-sampled tip of the
+    #     epoch it falls in, not a rho-sampled one — "equal up to rounding" is not "equal"
+    near = None
+    if serial and times_mode != "relative" and rng.random() < 0.25:
+        events = []          # heights of the rho events that carry a tip
+        eff_rho = ([0.0] * (m - len(rho)) + list(rho)) if rho else [0.0] * m
+        if eff_rho[-1] > 0 and 0.0 in tips:
+            events.append(0.0)
+        if times_mode == "absolute":
+            for j, b in enumerate(sorted(bs)):
+                if eff_rho[j] > 0 and any(abs((T - h) - b) == 0.0 for h in tips):
+                    events.append(T - b)
+        if events:
+            hE = rng.choice(events)
+            ks = [k for k, h in enumerate(tips) if abs((T - h) - (T - hE)) == 0.0]
+            if hE == 0.0 and len(ks) < 2:
+                ks = []             # the youngest tip defines height 0: one tip stays exactly at the present
+        if events and ks:
+            k = rng.choice(ks)
+            d = rng.choice([3e-7, 1e-6, 2e-6, 8e-6]) * max(1.0, T - hE)
+            if hE > 0 and rng.random() < 0.5 and hE - d > 0:
+                d = -d
+            tips = list(tips)
+            tips[k] = hE + d
+            near = dict(tip=k, event_height=hE, displaced_by=d)
     case = dict(api=api, scenario=scenario, n=n, tree=t, tips=tips, ints=ints, m=m, times_json=times_json,
                 origin=(edge if root_edge else origin), root_edge=root_edge, times_mode=times_mode,
-                times=times, rho=rho, r=r, survival=survival, **rates)
+                times=times, rho=rho, r=r, survival=survival, near_rho=near, **rates)
     return case
 
 
